@@ -98,8 +98,8 @@ func runSolver(ctx context.Context, sp solverSpec, file string, timeoutS int) so
 }
 
 // portfolio races the solvers; the first definitive answer wins.
-func portfolio(file string, timeoutS int, which []solverSpec) solveResult {
-	ctx, cancel := context.WithCancel(context.Background())
+func portfolio(parent context.Context, file string, timeoutS int, which []solverSpec) solveResult {
+	ctx, cancel := context.WithCancel(parent)
 	defer cancel()
 	ch := make(chan solveResult, len(which))
 	for _, sp := range which {
@@ -156,7 +156,66 @@ type job struct {
 	file string
 }
 
-func solveAll(files []string, obls []*Obligation, timeoutS int, workers int) []solveResult {
+// variantDelay: how long the first formulation of a VC runs alone before the
+// second (equivalent) definition of the machine-arithmetic macros joins the race.
+const variantDelay = 3 * time.Second
+
+func definitive(r solveResult) bool { return r.status == "unsat" || r.status == "sat" }
+
+// solveOne races the solver portfolio on the VC and, once the first formulation
+// has been inconclusive or silent for variantDelay, on its variant-B twin; the
+// first definitive answer wins and the losers are killed.
+func solveOne(file string, timeoutS int, which []solverSpec) solveResult {
+	ctx, cancel := context.WithCancel(context.Background())
+	defer cancel()
+	type tagged struct {
+		r solveResult
+		b bool
+	}
+	ch := make(chan tagged, 2)
+	start := time.Now()
+	go func() { ch <- tagged{portfolio(ctx, file, timeoutS, which), false} }()
+	pending := 1
+	startedB := false
+	startB := func() {
+		if startedB {
+			return
+		}
+		startedB = true
+		if fb := variantB(file); fb != "" {
+			pending++
+			go func() { ch <- tagged{portfolio(ctx, fb, timeoutS, which), true} }()
+		}
+	}
+	timer := time.NewTimer(variantDelay)
+	defer timer.Stop()
+	var first solveResult
+	for pending > 0 {
+		select {
+		case t := <-ch:
+			pending--
+			if definitive(t.r) {
+				if t.b {
+					t.r.solver += "/modform"
+					t.r.seconds = time.Since(start).Seconds()
+				}
+				return t.r
+			}
+			if !t.b {
+				first = t.r
+				startB()
+			}
+		case <-timer.C:
+			startB()
+		}
+	}
+	return first
+}
+
+// solveAll: proof obligations get timeoutS per formulation, cover (vacuity)
+// queries coverTimeoutS - an inconclusive cover is not an alarm, so it need
+// not wait as long.
+func solveAll(files []string, obls []*Obligation, timeoutS, coverTimeoutS int, workers int) []solveResult {
 	res := make([]solveResult, len(files))
 	which := availableSolvers()
 	// dedupe identical VC bodies
@@ -170,18 +229,11 @@ func solveAll(files []string, obls []*Obligation, timeoutS int, workers int) []s
 		go func() {
 			defer wg.Done()
 			for j := range jobs {
-				r := portfolio(j.file, timeoutS, which)
-				if r.status != "unsat" && r.status != "sat" {
-					// second attempt with the other (equivalent) definition of
-					// the machine-arithmetic macros
-					if fb := variantB(j.file); fb != "" {
-						if r2 := portfolio(fb, timeoutS, which); r2.status == "unsat" || r2.status == "sat" {
-							r2.solver += "/modform"
-							r2.seconds += r.seconds
-							r = r2
-						}
-					}
+				t := timeoutS
+				if j.idx < len(obls) && obls[j.idx].Cover {
+					t = coverTimeoutS
 				}
+				r := solveOne(j.file, t, which)
 				mu.Lock()
 				res[j.idx] = r
 				mu.Unlock()
@@ -209,6 +261,41 @@ func solveAll(files []string, obls []*Obligation, timeoutS int, workers int) []s
 	}
 	close(jobs)
 	wg.Wait()
+	// second chance for inconclusive proof obligations: solver processes were
+	// seen to stall for seconds on a busy machine (a 0.1 s query took 8 s), so
+	// an "unknown" is re-asked once with little else running before it is
+	// reported as undischarged. Definitive answers are never re-asked.
+	var again []int
+	for _, i := range cache {
+		if !definitive(res[i]) && !(i < len(obls) && obls[i].Cover) {
+			again = append(again, i)
+		}
+	}
+	if len(again) > 0 {
+		rj := make(chan int)
+		var rwg sync.WaitGroup
+		for w := 0; w < 2 && w < len(again); w++ {
+			rwg.Add(1)
+			go func() {
+				defer rwg.Done()
+				for i := range rj {
+					r := solveOne(files[i], timeoutS, which)
+					if definitive(r) {
+						r.solver += "/retry"
+						mu.Lock()
+						r.seconds += res[i].seconds
+						res[i] = r
+						mu.Unlock()
+					}
+				}
+			}()
+		}
+		for _, i := range again {
+			rj <- i
+		}
+		close(rj)
+		rwg.Wait()
+	}
 	for i, k := range dups {
 		res[i] = res[k]
 	}
